@@ -221,18 +221,21 @@ Fixpoint nodup_strings (l : list string) : bool :=
   | x :: r => negb (existsb (String.eqb x) r) && nodup_strings r
   end.
 
-(** Documented shape of HasPermission / storeHasPermission (normalised source text): the authority
-    short-circuit, the address parse, and the store lookup under exactly (marketID, addr,
-    permission). *)
+(** Documented structural fingerprint of HasPermission / storeHasPermission: the translator prints
+    their statements alpha-normalised (parameters by position #i, the context as ctx, locals
+    replaced by what they are bound to, so renaming or hoisting changes nothing): the authority
+    short-circuit returning true, the bech32 parse failure returning false, and the store lookup
+    under exactly (marketID, parsed address, permission) in these argument positions.  Their
+    behaviour is pinned by the harness matrix in any case. *)
 Definition documented_has_permission : list string := [
-  "if k.IsAuthority(address) { return true }";
-  "addr, err := sdk.AccAddressFromBech32(address)";
-  "if err != nil { return false }";
-  "return storeHasPermission(k.getStore(ctx), marketID, addr, permission)"
+  (* HasPermission(ctx, #1 marketID, #2 address, #3 permission) *)
+  "if k.IsAuthority(#2) { return true }";
+  "if $2of(sdk.AccAddressFromBech32(#2)) != nil { return false }";
+  "return storeHasPermission(k.getStore(ctx), #1, sdk.AccAddressFromBech32(#2), #3)"
 ].
 Definition documented_store_has_permission : list string := [
-  "key := MakeKeyMarketPermissions(marketID, addr, permission)";
-  "return store.Has(key)"
+  (* storeHasPermission(#0 store, #1 marketID, #2 addr, #3 permission) *)
+  "return #0.Has(MakeKeyMarketPermissions(#1, #2, #3))"
 ].
 
 Fixpoint strings_eqb (a b : list string) : bool :=
@@ -243,9 +246,7 @@ Fixpoint strings_eqb (a b : list string) : bool :=
   end.
 
 Definition has_permission_shape_ok : bool :=
-  (fs_sig gen_has_permission =? "(ctx, marketID, address, permission)") &&
   strings_eqb (fs_stmts gen_has_permission) documented_has_permission &&
-  (fs_sig gen_store_has_permission =? "(store, marketID, addr, permission)") &&
   strings_eqb (fs_stmts gen_store_has_permission) documented_store_has_permission.
 
 (* ------------------------------------------------------------------ UpdatePermissions (store level) *)
@@ -322,13 +323,22 @@ Definition names_grant (r : upd_req) (g : grant) : bool :=
 Record order := { o_id : N; o_market : N; o_owner : N }.
 
 (** The permission Keeper.CancelOrder accepts instead of ownership, read off the generated row:
-    `if signer != orderOwner && !k.<helper>(ctx, order.GetMarketID(), signer)` with
-    orderOwner := order.GetOwner() and nothing written before it.  [None] = not determined. *)
+    `if signer != owner && !k.<helper>(ctx, market, signer)` where (alpha-normalised: CancelOrder(ctx,
+    #1 orderID, #2 signer)) owner = k.GetOrder(ctx, #1).GetOwner(), market = k.GetOrder(ctx,
+    #1).GetMarketID(), and nothing is written before it.  [None] = not determined. *)
+Definition delegation_of_cancel : string :=
+  match find (fun d => fst d =? "CancelOrder") gen_delegations with
+  | Some d => snd d
+  | None => ""
+  end.
+
 Definition cancel_order_perm : option perm :=
-  if (co_kind gen_cancel_order =? "OwnerOr")
-     && (co_owner_src gen_cancel_order =? "order.GetOwner()")
-     && (co_market_src gen_cancel_order =? "order.GetMarketID()")
+  if (co_kind gen_cancel_order =? "OwnerOr")                 (* signer and caller are parameter #2 *)
+     && (co_signer gen_cancel_order =? "#2") && (co_caller gen_cancel_order =? "#2")
+     && (co_owner_src gen_cancel_order =? "k.GetOrder(ctx, #1).GetOwner()")
+     && (co_market_src gen_cancel_order =? "k.GetOrder(ctx, #1).GetMarketID()")
      && negb (co_pre_write gen_cancel_order)
+     && (delegation_of_cancel =? "k.Keeper.CancelOrder(ctx, msg.OrderId, msg.Signer)")
   then helper_perm (co_helper gen_cancel_order)
   else None.
 
@@ -366,36 +376,49 @@ Definition payment_row_of (f : string) : option payment_row :=
 Definition pair_in (a b : string) (l : list (string * string)) : bool :=
   existsb (fun c => (fst c =? a) && (snd c =? b)) l.
 
-(** What the generated table says the payment functions compare / look up. *)
+Definition delegation_of (endpoint : string) : string :=
+  match find (fun d => fst d =? endpoint) gen_delegations with
+  | Some d => snd d
+  | None => ""
+  end.
+
+(** What the generated tables say the payment functions compare / look up (alpha-normalised: #i =
+    i-th parameter of the keeper function, locals inlined), and which request field the handler
+    passes in which position. *)
 Definition accept_checks_target : bool :=
   match payment_row_of "AcceptPayment" with
-  | Some r => pair_in "payment.Target" "existing.Target" (pf_conds r)
-              && strings_eqb (pf_lookups r) ["k.requirePaymentFromStore(store, source, payment.ExternalId)"]
+  | Some r => pair_in "#1.Target"
+                "k.requirePaymentFromStore(k.getStore(ctx), sdk.AccAddressFromBech32(#1.Source), #1.ExternalId).Target"
+                (pf_conds r)
+              && strings_eqb (pf_lookups r) ["k.requirePaymentFromStore(k.getStore(ctx), sdk.AccAddressFromBech32(#1.Source), #1.ExternalId)"]
+              && (delegation_of "AcceptPayment" =? "k.Keeper.AcceptPayment(ctx, &msg.Payment)")
   | None => false
   end.
 Definition reject_checks_target : bool :=
   match payment_row_of "RejectPayment" with
-  | Some r => pair_in "payment.Target" "target.String()" (pf_conds r)
-              && (pf_sig r =? "(ctx, target, source, externalID)")
-              && strings_eqb (pf_lookups r) ["k.requirePaymentFromStore(store, source, externalID)"]
+  | Some r => pair_in "#1.String()" "k.requirePaymentFromStore(k.getStore(ctx), #2, #3).Target" (pf_conds r)
+              && strings_eqb (pf_lookups r) ["k.requirePaymentFromStore(k.getStore(ctx), #2, #3)"]
+              && (delegation_of "RejectPayment" =?
+                  "k.Keeper.RejectPayment(ctx, sdk.AccAddressFromBech32(msg.Target), sdk.AccAddressFromBech32(msg.Source), msg.ExternalId)")
   | None => false
   end.
 Definition reject_all_by_target : bool :=
   match payment_row_of "RejectPayments" with
-  | Some r => (pf_sig r =? "(ctx, target, sources)")
-              && strings_eqb (pf_lookups r) ["k.getPaymentsForTargetAndSourceFromStore(store, target, source)"]
+  | Some r => strings_eqb (pf_lookups r) ["k.getPaymentsForTargetAndSourceFromStore(k.getStore(ctx), #1, $elem(#2))"]
+              && prefix "k.Keeper.RejectPayments(ctx, sdk.AccAddressFromBech32(msg.Target), " (delegation_of "RejectPayments")
   | None => false
   end.
 Definition cancel_by_source : bool :=
   match payment_row_of "CancelPayments" with
-  | Some r => (pf_sig r =? "(ctx, source, externalIDs)")
-              && strings_eqb (pf_lookups r) ["k.requirePaymentFromStore(store, source, externalID)"]
+  | Some r => strings_eqb (pf_lookups r) ["k.requirePaymentFromStore(k.getStore(ctx), #1, $elem(#2))"]
+              && (delegation_of "CancelPayments" =?
+                  "k.Keeper.CancelPayments(ctx, sdk.AccAddressFromBech32(msg.Source), msg.ExternalIds)")
   | None => false
   end.
 Definition retarget_by_source : bool :=
   match payment_row_of "UpdatePaymentTarget" with
-  | Some r => (pf_sig r =? "(ctx, source, externalID, newTarget)")
-              && strings_eqb (pf_lookups r) ["k.requirePaymentFromStore(store, source, externalID)"]
+  | Some r => strings_eqb (pf_lookups r) ["k.requirePaymentFromStore(k.getStore(ctx), #1, #2)"]
+              && prefix "k.UpdatePaymentTarget(ctx, sdk.AccAddressFromBech32(msg.Source), msg.ExternalId, " (delegation_of "ChangePaymentTarget")
   | None => false
   end.
 (** msgs.go: the signer of MsgAcceptPaymentRequest is payment.target, of MsgCreatePaymentRequest
